@@ -188,9 +188,49 @@ Proof.
 Qed.
 Print Assumptions C09_create_resolves_set_refuted.
 
+Definition docN : node := NMap (ct 0) [ (sk 1 "a", NLeaf (pl 2) PNone) ].
+(* Since fix 45f1b07 (Nodes.require_buildable_path) the walk asks BEFORE it builds anything whether the rest of the
+   path can be built where nothing exists yet - Hash keys and non-negative Array indexes only.  On a straight path
+   the one tail that cannot is one holding a negative index: a missing key (and a key whose value is null) followed
+   by such a tail is refused with a YAML Path error, for every document root mapping, value and oracle, and the
+   model's refusal carries no document: nothing was built.  (Before the repair the containers in front of the
+   negative index were built first and stayed behind when "Cannot add negative INDEX subreference to lists" was
+   raised: {a: 1} set x[-1] := v left {a: 1, x: []}.) *)
+Theorem C09_create_unbuildable_tail_refused :
+  forall lit k ko rest value vo i kvs,
+    find (key_is (PStr k)) kvs = None -> forallb straight_buildable rest = false ->
+    create_query lit (SKey k ko :: rest) value vo (NMap i kvs) = RErr (YPE Generic).
+Proof. exact create_missing_key_unbuildable. Qed.
+Print Assumptions C09_create_unbuildable_tail_refused.
+
+Theorem C09_create_unbuildable_beneath_null_refused :
+  forall lit k ko s2 rest2 value vo i kvs kn ci,
+    find (key_is (PStr k)) kvs = Some (kn, NLeaf ci PNone) -> forallb straight_buildable (s2 :: rest2) = false ->
+    create_query lit (SKey k ko :: s2 :: rest2) value vo (NMap i kvs) = RErr (YPE Generic).
+Proof. exact create_null_key_unbuildable. Qed.
+Print Assumptions C09_create_unbuildable_beneath_null_refused.
+
+(* {a: 1}: x[-1] and x.y[0][-2] are refused (through the query and through set_value, the document of the failed
+   set is the one it was given); {a: null}: a[-1] is refused; the hypotheses are met by these and not by x[1] *)
+Example C09_create_unbuildable_examples :
+  let d := NMap (ct 0) [ (sk 1 "a", iv 2 1) ] in
+  create_query no_lit [SKey "x" None; SIdx (-1)] (PStr "v") None d = RErr (YPE Generic) /\
+  create_query no_lit [SKey "x" None; SKey "y" None; SIdx 0; SIdx (-2)] (PStr "v") None d = RErr (YPE Generic) /\
+  match create_set no_lit no_fl [SKey "x" None; SIdx (-1)] (PStr "v") FBare None d with
+  | SFailed (d', _) (YPE Generic) => d' = d
+  | _ => False
+  end /\
+  create_query no_lit [SKey "a" (Some 1%N); SIdx (-1)] (PStr "v") None docN = RErr (YPE Generic) /\
+  forallb straight_buildable [SIdx (-1)] = false /\ forallb straight_buildable [SKey "y" None; SIdx 0; SIdx (-2)] = false /\
+  forallb straight_buildable [SIdx 1] = true /\
+  match create_query no_lit [SKey "x" None; SIdx 1] (PStr "v") None d with
+  | ROk (d', _, _) => erase d' = DMap [ (PStr "a", DLeaf (PInt 1)); (PStr "x", DSeq [DLeaf (PStr "v"); DLeaf (PStr "v")]) ]
+  | RErr _ => False
+  end.
+Proof. vm_compute. repeat split. Qed.
+
 (* the witness of the former C09_create_null_prefix_refuted (F10b through set_value: {a: null} set a.b.c := v
    gave {a: v}): the tail is built beneath the null and the value lands at a.b.c *)
-Definition docN : node := NMap (ct 0) [ (sk 1 "a", NLeaf (pl 2) PNone) ].
 Example C09_create_null_prefix_set :
   match create_set no_lit no_fl [SKey "a" (Some 1%N); SKey "b" None; SKey "c" None] (PStr "v") FBare None docN with
   | SDone (d, _) => erase d = DMap [ (PStr "a", DMap [ (PStr "b", DMap [ (PStr "c", DLeaf (PStr "v")) ]) ]) ]
